@@ -67,9 +67,9 @@ func setAt(doc interface{}, toks []string, v interface{}) interface{} {
 }
 
 type optSnapshot struct {
-	RelativeBase                              string
-	Skip, Continue, Absolute                  bool
-	LoaderPtr                                 uintptr
+	RelativeBase             string
+	Skip, Continue, Absolute bool
+	LoaderPtr                uintptr
 }
 
 func snapOpts(o *spec.ExpandOptions) optSnapshot {
@@ -80,8 +80,95 @@ func snapOpts(o *spec.ExpandOptions) optSnapshot {
 	return s
 }
 
+// c10IDScope: an element whose schema carries an id and, next to it, a relative $ref: every entry point reads that $ref in the scope
+// the id opens (the document exists there only), as the whole-spec expansion does.
+func c10IDScope(k int, res *core.CaseResult) {
+	id := []string{"http://ids.example/c10/dir/", "http://ids.example/c10/dir/self.json"}[k%2]
+	rootText := fmt.Sprintf(`{"swagger":"2.0","info":{"title":"t","version":"1"},"paths":{},"definitions":{"scoped":{"id":%q,"$ref":"leaf.json#/definitions/leaf"}},`+
+		`"parameters":{"scoped":{"name":"b","in":"body","schema":{"id":%q,"$ref":"leaf.json#/definitions/leaf"}}},"responses":{"scoped":{"description":"r","schema":{"id":%q,"$ref":"leaf.json#/definitions/leaf"}}}}`, id, id, id)
+	var reqs []string
+	loader := func(u string) (json.RawMessage, error) {
+		reqs = append(reqs, u)
+		if u == "http://ids.example/c10/dir/leaf.json" {
+			return json.RawMessage(`{"definitions":{"leaf":{"title":"leaf in the id scope","type":"object"}}}`), nil
+		}
+		return nil, fmt.Errorf("no document at %s", u)
+	}
+	saved := spec.PathLoader
+	spec.PathLoader = loader
+	defer func() { spec.PathLoader = saved }()
+	typed := func() *spec.Swagger { sw := new(spec.Swagger); _ = json.Unmarshal([]byte(rootText), sw); return sw }
+	generic := func() interface{} { var g interface{}; _ = json.Unmarshal([]byte(rootText), &g); return g }
+	titleOf := func(v interface{}) string {
+		n, _ := oracle.Norm(v)
+		for _, p := range []string{"/title", "/schema/title", "/definitions/scoped/title"} {
+			if t, ok := oracle.EvalPointer(n, p); ok {
+				if s, isStr := t.(string); isStr {
+					return s
+				}
+			}
+		}
+		return ""
+	}
+	type run struct {
+		name string
+		f    func() (interface{}, error)
+	}
+	opts := func() *spec.ExpandOptions { return &spec.ExpandOptions{RelativeBase: gen.RootURL, PathLoader: loader} }
+	runs := []run{
+		{"ExpandSpec", func() (interface{}, error) { sw := typed(); return sw, spec.ExpandSpec(sw, opts()) }},
+		{"ExpandSchema root=typed", func() (interface{}, error) {
+			s := spec.RefSchema("#/definitions/scoped")
+			return s, spec.ExpandSchema(s, typed(), nil)
+		}},
+		{"ExpandSchema root=generic", func() (interface{}, error) {
+			s := spec.RefSchema("#/definitions/scoped")
+			return s, spec.ExpandSchema(s, generic(), nil)
+		}},
+		{"ExpandSchemaWithBasePath", func() (interface{}, error) {
+			s := spec.RefSchema("root.json#/definitions/scoped")
+			o := opts()
+			o.PathLoader = func(u string) (json.RawMessage, error) {
+				if u == gen.RootURL {
+					return json.RawMessage(rootText), nil
+				}
+				return loader(u)
+			}
+			return s, spec.ExpandSchemaWithBasePath(s, nil, o)
+		}},
+		{"ExpandParameterWithRoot root=typed", func() (interface{}, error) {
+			p := spec.ParamRef("#/parameters/scoped")
+			return p, spec.ExpandParameterWithRoot(p, typed(), nil)
+		}},
+		{"ExpandResponseWithRoot root=generic", func() (interface{}, error) {
+			r := spec.ResponseRef("#/responses/scoped")
+			return r, spec.ExpandResponseWithRoot(r, generic(), nil)
+		}},
+	}
+	for _, r := range runs {
+		reqs = nil
+		var out interface{}
+		err, pan := guard(func() error { var e error; out, e = r.f(); return e })
+		res.Evals++
+		res.Count("element-with-id-and-sibling-ref", 1)
+		wit := map[string]interface{}{"root_in_memory": json.RawMessage(rootText), "entry": r.name, "id": id, "only_document": "http://ids.example/c10/dir/leaf.json", "requests": append([]string{}, reqs...)}
+		switch {
+		case pan != "":
+			res.Violate("panic "+r.name+" (id next to $ref)", pan, wit)
+		case err != nil:
+			res.Violate("spurious-error "+r.name+" (id next to $ref): "+errClass(err), err.Error(), wit)
+		case titleOf(out) != "leaf in the id scope":
+			n, _ := oracle.Norm(out)
+			res.Violate("element not expanded from the scope of its id: "+r.name, core.Abbrev(oracle.Text(n), 300), wit)
+		}
+	}
+}
+
 func c10Run(env *core.Env, idx int) core.CaseResult {
 	var res core.CaseResult
+	if idx < 2 {
+		c10IDScope(idx, &res)
+	}
 	rng := core.Rng(env.Seed, "C10", idx)
 	multi := idx%2 == 1
 	o := gen.WorldOpts{NDocs: 1, Cyclic: rng.Intn(2) == 0, Nested: rng.Intn(2) == 0, HostileNames: rng.Intn(4) == 0, Siblings: rng.Intn(4) == 0,
@@ -394,7 +481,7 @@ func init() {
 		Run:      c10Run,
 		Floors: func(env *core.Env) []string {
 			return []string{"entry.ExpandSchema", "entry.ExpandSchemaWithBasePath", "entry.ExpandParameterWithRoot", "entry.ExpandParameter", "entry.ExpandResponseWithRoot", "entry.ExpandResponse",
-				"prefilled-cache", "reused-cache", "element-with-id-scoped-schema", "kept-refs", "world.cyclic", "world.acyclic"}
+				"prefilled-cache", "reused-cache", "element-with-id-scoped-schema", "element-with-id-and-sibling-ref", "kept-refs", "world.cyclic", "world.acyclic"}
 		},
 		Assumptions: []string{"the *WithRoot entry points are documented to reach the root document only: their worlds are single-document",
 			"ExpandParameter/ExpandResponse read documents through the package-level PathLoader, which the worker points at the world for the duration of the call"},
